@@ -393,6 +393,15 @@ def r6_injective_name(ctx):
     for n, c in enumerate(last):
         srcs, sl = tainted_sources(b, c.args[1])
         has_key = any(s[0].startswith("as_cache_key") for s in srcs)
+        # ... and the key string arrives unmodified: a many-to-one rewrite on the way (replace, to_lowercase, trim, truncate, a char filter)
+        # maps distinct keys to one file name while the in-memory index still keeps them apart
+        LOSSY_STR = re.compile(r"str>?::(replace|replacen|to_lowercase|to_uppercase|to_ascii_lowercase|to_ascii_uppercase|trim\w*|split\w*|chars|char_indices|bytes|escape_\w+)$|"
+                               r"String::(truncate|retain|replace_range|drain|pop|remove)$|Iterator>?::(filter|map|take|skip|collect)$")
+        lossy = [x for x in (sl.calls if sl else []) if LOSSY_STR.search(x.name) or LOSSY_STR.search(x.orig_name or "")] if has_key else []
+        ctx.check(not lossy, rule, [b.id, "final-component-verbatim", n], "the key string reaches the file name unmodified",
+                  "DiskCache::get_file_path rewrites the key string with %s before using it as the file name: the rewrite is many-to-one (e.g. '/' and '_' both "
+                  "become '_'), so two distinct keys the cache keeps apart in its index share one file - get returns the other key's value, remove deletes it" %
+                  (lossy[0].name.split("::")[-1] if lossy else ""), c.loc(), sample={"final_component_at": c.loc()})
         ctx.check(has_key, rule, [b.id, "final-component", n], "final component contains the key string",
                   "DiskCache::get_file_path names the entry's file after something other than the full key string (only an integer digest of it reaches the final "
                   "component): the digest is not injective, so two distinct well-formed keys share one file and a get for one returns the other's bytes", c.loc(),
